@@ -231,5 +231,80 @@ pub fn main(args: &[String]) {
         }
         registry = json!({"checked": true, "rows": n, "items": items.len(), "diffs": diffs, "first": first});
     }
-    println!("{}", json!({"summary": {"rows": rows, "corrupted": corrupted_n, "registry": registry}}));
+    // synthetic registry files read through the line parser: descriptions of boundary lengths (buffer sizes of a
+    // line reader: 2^k and neighbours, in bytes and with multi-byte characters straddling them), LF and CRLF, with
+    // malformed rows in between whose errors must carry the physical line number
+    let mut synth = json!({"checked": false});
+    if let Some(dir) = arg_value(args, "--scratch") {
+        std::fs::create_dir_all(&dir).ok();
+        let path = PathBuf::from(&dir).join("synthetic.csv");
+        let mut lens: Vec<usize> = vec![0, 1, 2, 50, 161, 255, 256, 257, 511, 512, 513, 1023, 1024, 1025, 2047, 2048, 2049, 16383, 16384, 16385, 65535, 65536, 65537, 200_000];
+        lens.extend(4060..4110);
+        lens.extend(8160..8200);
+        lens.extend([32767, 32768, 32769]);
+        let fillers: [&str; 5] = ["x", "\u{e9}", "\u{65e5}", "\u{1f600}", "a, b"];
+        let (mut files, mut nrows, mut diffs) = (0u64, 0u64, 0u64);
+        let mut first: Value = Value::Null;
+        for term in ["\n", "\r\n"] {
+            for fi in 0..fillers.len() {
+                let mut text = String::from("Codepoint,Property,Description") + term;
+                let mut exp: Vec<Value> = Vec::new();
+                for (i, l) in lens.iter().enumerate() {
+                    let lineno = exp.len() + 2;
+                    if i % 9 == 4 {
+                        // malformed: unknown property name / missing field
+                        text.push_str(if i % 2 == 0 { "0041,BOGUS,x" } else { "0041,PVALID" });
+                        text.push_str(term);
+                        exp.push(json!({ "err": lineno }));
+                        continue;
+                    }
+                    let filler = fillers[(fi + i) % fillers.len()];
+                    let mut desc = String::new();
+                    while desc.len() < *l {
+                        desc.push_str(filler);
+                    }
+                    let desc = desc.trim_end().to_string();
+                    let cp = rand_cp(&mut rng).min(0x10FFF0);
+                    let cp = if (0xD800..=0xDFFF).contains(&cp) { 0xD7FF } else { cp };
+                    let (c1, cps) = if i % 3 == 0 {
+                        (format!("{:04X}-{:04X}", cp, cp + 7), json!({"k": "R", "s": cp, "e": cp + 7}))
+                    } else {
+                        (format!("{:04X}", cp), json!({"k": "S", "c": cp}))
+                    };
+                    let cps = if cps["k"] == "R" && (0xD800..=0xDFFF).contains(&(cp + 7)) { json!({"k": "S", "c": cp}) } else { cps };
+                    let c1 = if cps["k"] == "S" { format!("{:04X}", cp) } else { c1 };
+                    let (p1, p2) = (NAMES[i % 7], NAMES[(i / 7) % 7]);
+                    let (c2, props) = if i % 4 == 1 { (format!("{} or {}", p1, p2), json!([p1, p2])) } else { (p1.to_string(), json!([p1])) };
+                    text.push_str(&format!("{},{},{}{}", c1, c2, desc, term));
+                    exp.push(json!({"ok": {"cps": cps, "props": props, "desc": strip_term(&desc)}}));
+                }
+                std::fs::write(&path, text.as_bytes()).unwrap_or_else(|e| tool_error(&e.to_string()));
+                let actual = read_file(&path);
+                files += 1;
+                nrows += exp.len() as u64;
+                let items = actual.as_array().cloned().unwrap_or_default();
+                let mut d = 0u64;
+                for (i, e) in exp.iter().enumerate() {
+                    if items.get(i) != Some(e) {
+                        d += 1;
+                        if first.is_null() {
+                            let short = |v: Option<&Value>| v.map(|v| { let s = v.to_string(); if s.len() > 300 { format!("{}... ({} bytes)", s.chars().take(300).collect::<String>(), s.len()) } else { s } });
+                            first = json!({"file": files, "terminator": term, "line": i + 2, "description_bytes": e["ok"]["desc"].as_str().map(|x| x.len()),
+                                           "expected": short(Some(e)), "actual": short(items.get(i)), "whole": if items.is_empty() { actual.clone() } else { Value::Null }});
+                        }
+                    }
+                }
+                if items.len() != exp.len() {
+                    d += 1;
+                    if first.is_null() {
+                        first = json!({"file": files, "terminator": term, "expected_items": exp.len(), "actual_items": items.len()});
+                    }
+                }
+                diffs += d;
+            }
+        }
+        std::fs::remove_file(&path).ok();
+        synth = json!({"checked": true, "files": files, "rows": nrows, "diffs": diffs, "first": first});
+    }
+    println!("{}", json!({"summary": {"rows": rows, "corrupted": corrupted_n, "registry": registry, "synthetic": synth}}));
 }
